@@ -158,6 +158,8 @@ func checkSpec(ctx *Ctx, id string) {
 			continue
 		}
 		strict := 0
+		var devs []Violation
+		var devReqs []string
 		for k, a := range ans {
 			if a == "x" {
 				continue
@@ -169,12 +171,29 @@ func checkSpec(ctx *Ctx, id string) {
 				strict++
 			}
 			if fmt.Sprint(got) != a {
-				v := Violation{Eco: name, Kind: "reference-order", Input: []string{p.Strs[pq.i], p.Strs[pq.j]}, Expected: a + " (" + sp.Rule + ")", Actual: fmt.Sprint(got)}
-				if f := findingFor(id, name, v.Kind, "", []string{p.Strs[pq.i], p.Strs[pq.j]}); f != "" {
-					v.Finding = f
-				}
-				res.violate(v)
+				devs = append(devs, Violation{Eco: name, Kind: "reference-order", Input: []string{p.Strs[pq.i], p.Strs[pq.j]}, Expected: a + " (" + sp.Rule + ")", Actual: fmt.Sprint(got)})
+				devReqs = append(devReqs, "VC "+name+" "+hx(p.Strs[pq.i])+" "+hx(p.Strs[pq.j]))
 			}
+		}
+		// A deviation from the reference is covered by a recorded finding only where the verified
+		// model — the code as it was when the finding was recorded, for which the deviation class is
+		// characterised and the theorem proved on its complement — deviates in the same way.  A pair
+		// on which the model agrees with the reference but the implementation does not is new.
+		modelAns := make([]string, len(devReqs))
+		if ctx.MEcos[name] && len(devReqs) > 0 {
+			if ma, err := ctx.Pool.Map(devReqs); err == nil {
+				modelAns = ma
+			}
+		}
+		for k, v := range devs {
+			in := v.Input.([]string)
+			if f := findingFor(id, name, v.Kind, "", in); f != "" && (modelAns[k] == "" || modelAns[k] == v.Actual) {
+				v.Finding = f
+			} else if f != "" {
+				v.Kind = "reference-order/new-inside-finding-class"
+				v.Expected += "; the verified model also answers " + strings.Fields(v.Expected)[0] + " here, so this deviation is not the recorded one"
+			}
+			res.violate(v)
 		}
 		res.DistinctNontrivial += strict
 		dist[name] = map[string]int{"pool": len(p.Strs), "reference_valid": len(idx), "pairs": len(pairs), "strictly_ordered_pairs": strict}
